@@ -28,6 +28,9 @@ CLAIMED = {
  "C15": ("exploration", "model-based PBT with resource accounting through /proc/self/fd and /proc/self/maps",
          "Store-backed histories opening and closing collection, child and store snapshots and iterators relative to rounds, compactions and Close calls, with a generated final close order; open handles must keep returning their first-read content, and after the last close no descriptor or mapping of the case directory may remain and the directory must hold one data file. " + NOTE_SCHED,
          "5.C15"),
+ "C09": ("exploration", "model-based PBT: generated iterator call sequences compared call by call with a model iterator",
+         "Generated snapshot shapes (single/many segments, tombstones first/last/consecutive, lower level present/exhausted/only source; collection, child and store snapshots), generated bounds (nil, non-nil empty, equal, inverted, sharing prefixes, neighbours of keys) and call sequences of Next/SeekTo/Current incl. backward seeks and seeks after exhaustion; after every call the return value, key and value must equal a model iterator's. " + NOTE_SCHED,
+         "5.C09"),
  "C20": ("exploration", "model-based PBT: Stats() sampled at every quiescent step, implication checked against the lower level's own snapshot and a reopened copy",
          "Histories incl. child-only and delete-only batches over mossStore and an application lower level; whenever the three dirty gauges are zero the lower level must equal the full reference (and a copy of the directory must reopen to it); after the last batch the gauges must reach zero within 6 controller cycles. " + NOTE_SCHED,
          "5.C20"),
